@@ -167,7 +167,7 @@ def estimator_chain(rep, an):
         F.wrapper_returns_solution(rep, res, entry, {"lsq_linear_minimize"}, ("X", "B", "Bvar"))
         F.qty(rep, res, entry)
         # the default variance model is the REGISTERED one: a fit with explicit targets and an explicit model must not replace it
-        R.rule_effect_free(rep, res, entry)
+        R.rule_effect_free(rep, res, entry, reg=_reg(an))
     # register_system: Epsilon derives from the registered filter uncertainty, else 'heteroscedastic'
     for unc in (None, "given", "samples"):
         fields = estimator_fields(K="vec", baseline="vec", uncertainty=(None if unc is None else "given"))
@@ -207,3 +207,8 @@ def estimator_chain(rep, an):
                 if not vs:
                     rep.undecided("R-FLOW", "sampled uncertainty: variance over samples of the capture integral", where=res.fn.loc(),
                                   construct="np.var(capture of the filter samples, axis=0)", entry="ReceptorEstimator.register_system", config=res.config)
+
+
+def _reg(an):
+    from .C14 import registration_writes
+    return registration_writes(an)
